@@ -139,6 +139,14 @@ func (fc *FCtx) pkgVar(o *types.Var) Val {
 			fc.note("package-level string variable " + o.Pkg().Name() + "." + o.Name() + " read as an arbitrary constant")
 			return Val{T: fc.U.Const("pkgstr_"+sanitize(o.Pkg().Name()+"_"+o.Name()), SStr), S: SStr, GoT: o.Type()}
 		}
+		if strings.HasPrefix(o.Pkg().Path(), modPath) {
+			switch o.Type().Underlying().(type) {
+			case *types.Struct, *types.Interface:
+				s := fc.U.SortOf(o.Type())
+				fc.note("package-level variable " + o.Pkg().Name() + "." + o.Name() + " read as an arbitrary constant")
+				return Val{T: fc.U.Const("pkgvar_"+sanitize(o.Pkg().Name()+"_"+o.Name()), s), S: s, GoT: o.Type()}
+			}
+		}
 		if o.Pkg().Path() == "encoding/binary" {
 			s := fc.U.opaque("ByteOrder")
 			return Val{T: fc.U.Const("binary_"+o.Name(), s), S: s, GoT: o.Type()}
@@ -687,10 +695,18 @@ func (fc *FCtx) evalCompositeLit(e *ast.CompositeLit, st *State) Val {
 		}
 		return Val{T: mkSlice(s, ln, ln, arr), S: s, GoT: t}
 	case KMap:
-		if len(e.Elts) == 0 {
-			return fc.zeroVal(t)
+		cur := fc.zeroVal(t)
+		mt := t.Underlying().(*types.Map)
+		for _, el := range e.Elts {
+			kv, ok := el.(*ast.KeyValueExpr)
+			if !ok {
+				oos("map literal element")
+			}
+			k := fc.coerce(fc.eval(kv.Key, st), mt.Key())
+			v := fc.coerce(fc.eval(kv.Value, st), mt.Elem())
+			cur = Val{T: app("mk_"+s.Name, fmt.Sprintf("(store %s %s true)", mpDom(cur), k.T), fmt.Sprintf("(store %s %s %s)", mpVal(cur), k.T, v.T)), S: s, GoT: t}
 		}
-		oos("non-empty map literal")
+		return cur
 	case KOpaque:
 		if isBz(s) {
 			b := fc.U.Fresh("lit", s)
@@ -747,6 +763,7 @@ var droppedPrefixes = []string{
 	"github.com/cosmos/cosmos-sdk/telemetry.",
 	"(*github.com/bandprotocol/chain/v3/pkg/logger.Logger).",
 	"(*github.com/bandprotocol/chain/v3/yoda.Logger).",
+	"(*github.com/bandprotocol/chain/v3/yoda.Context).update",
 }
 
 func isDroppedCall(name string) bool {
